@@ -341,6 +341,8 @@ func vc11Conc(f []string) string {
 			}
 		case "E":
 			finish(start("", vc11Int(t[1]), false))
+		case "A": // role transition: Manager.driveSync -> SetActive
+			ss.SetActive(t[1] == "1")
 		}
 	}
 	for _, h := range hs { // never leave a goroutine behind
